@@ -240,3 +240,8 @@ def string_prefix_variants():
             out.append(f"x = 'a' {p}'b'\n")
             out.append(f"x = ({p}'a'\n     'b'\n     {p}'c')\n")
     return out
+
+
+# valid Python WITHOUT a final newline whose last physical line looks like a comment (it is inside a string / after a
+# continuation): the tokenizer must still close the logical line
+FINAL_LINE_FORMS = ['x = """\n# not a comment"""', "x = 1 \\\n# c", "s = \'\'\'a\n#b\'\'\'", "x = 1\n# c", "x = 1\n   # c", "# only", "if a:\n  b\n  # c", "x = 1\n\\\n# c", "def f():\n    \'\'\'doc\n    # tail\'\'\'"]
